@@ -614,7 +614,7 @@ def rule_M10(m, rep, rid='M10'):
     n = 0
     offenders = []
     for b in m.cad.all_bodies:
-        if not b.file.endswith('io.rs'):
+        if not in_module_of(b, MLW):
             continue
         n += 1
         rep.analysed(b)
@@ -673,7 +673,7 @@ def rule_M11(m, rep, rid='M11'):
     rep.ob(rid, 'inner-is-std-bufwriter', fty == BUFW + '<T>', '', 'field type %s' % fty)
     badcalls = []
     for b in cad.all_bodies:
-        if not b.file.endswith('io.rs'):
+        if not in_module_of(b, MLW):
             continue
         for bi, t in b.calls():
             if callee_is(t, 'core::mem::forget', 'ManuallyDrop::new', 'BufWriter::into_parts', 'BufWriter::into_inner',
